@@ -55,6 +55,11 @@ func genC18(tier string, seed int64) []Case {
 		add(c18Desc{Order: "creds", HookMs: 300, NExt: n})
 	}
 	add(c18Desc{Order: "nosnapshot", HookMs: 300})
+	// boundary values of the hook timeout (a request that leaves the field out carries 0): a hung hook still
+	// ends the restore with the timeout error, at once
+	for _, h := range []int64{1, 0, -5} {
+		add(c18Desc{Order: "P,R,-", HookMs: h})
+	}
 	step := 10
 	if tier == "thorough" {
 		step = 1
